@@ -450,13 +450,29 @@ def perms {α : Type} : List α → List (List α)
 /-- `par a ;; b ;; …`: the sub-ops were issued concurrently.  The implementation reports only its tables at
 rest; the model takes the sub-ops in every order and answers with the tables of the first order that
 agrees with the implementation (of the order as written when none does: the line then differs). -/
+def stepSeqs (judge : St → Hub → Op → ImplOut → String) (st : St) (cands : List (List Op)) (implToks : List String) :
+    St × String × String :=
+  let impl := parseImpl implToks
+  let implT := (implToks.find? (hasPrefix "T=")).getD ""
+  let runs := cands.map fun p =>
+    p.foldl (fun (hs : Hub × Seen) op => ((SigModel.Hub.step hs.1 op).1, hs.2.observe hs.1 op)) (st.hub, st.seen)
+  let pick := match runs.find? (fun hs => showState hs.1 hs.2 == implT) with
+    | some hs => hs
+    | none => runs.headD (st.hub, st.seen)
+  -- the deliveries of a concurrent step are not recorded: the observers' views (C04) start afresh
+  let st' : St := { st with hub := pick.1, seen := pick.2, views := [] }
+  -- the backend is told about the virtual sessions that went away in the step, whatever the order
+  let told := sortStrings ((goneVirtual st.hub pick.1).map fun (r, v) => s!"B=told({enc r},s{v})")
+  let v := if implToks.isEmpty then "na" else judge st' st.hub (.housekeeping 0) impl
+  ({ st' with lastDigest := if impl.hasDigest then impl.digest else st.lastDigest },
+   joinToks (told ++ [showState pick.1 pick.2]), v)
+
 def stepPar (judge : St → Hub → Op → ImplOut → String) (st : St) (subs : List (List String)) (implToks : List String) :
     St × String × String :=
   match subs.mapM parseOp with
   | none => (st, "bad-op", "na")
   | some ops =>
     let impl := parseImpl implToks
-    let implT := (implToks.find? (hasPrefix "T=")).getD ""
     -- registrations are tried in the order of the session ids the implementation handed out (rejected
     -- ones last); short lists are tried in every order as well
     let rank (op : Op) : Nat := match op with
@@ -466,15 +482,17 @@ def stepPar (judge : St → Hub → Op → ImplOut → String) (st : St) (subs :
          | none => 1000000)
       | _ => 1000000
     let sorted := (ops.toArray.qsort (fun a b => rank a < rank b)).toList
-    let cands := [sorted] ++ (if ops.length ≤ 3 then (perms ops).reverse else [ops])
-    let runs := cands.map fun p =>
-      p.foldl (fun (hs : Hub × Seen) op => ((SigModel.Hub.step hs.1 op).1, hs.2.observe hs.1 op)) (st.hub, st.seen)
-    let pick := match runs.find? (fun hs => showState hs.1 hs.2 == implT) with
-      | some hs => hs
-      | none => runs.headD (st.hub, st.seen)
-    let st' : St := { st with hub := pick.1, seen := pick.2 }
-    let v := if implToks.isEmpty then "na" else judge st' st.hub (.housekeeping 0) impl
-    ({ st' with lastDigest := if impl.hasDigest then impl.digest else st.lastDigest }, showState pick.1 pick.2, v)
+    stepSeqs judge st ([sorted] ++ (if ops.length ≤ 3 then (perms ops).reverse else [ops])) implToks
+
+/-- `joinrace` / `vaddrace`: a request of session `s` waits for the backend while the session is taken over by
+connection `c2` and says bye there; then the backend answers.  At rest the tables are those of "take-over, bye"
+(the request never completed or was undone) — or, when the take-over was not possible (connection not open or in
+use, session gone), those of the request followed by the failed take-over. -/
+def stepRace (judge : St → Hub → Op → ImplOut → String) (st : St) (req : List String) (s c2 : String) (implToks : List String) :
+    St × String × String :=
+  match [req, ["resume", c2, s], ["bye", c2]].mapM parseOp with
+  | some [r, res, bye] => stepSeqs judge st [[res, bye], [r, res, bye]] implToks
+  | _ => (st, "bad-op", "na")
 
 /-- One line: run the model, print its prediction, judge the implementation's output with `judge`. -/
 def stepWith (judge : St → Hub → Op → ImplOut → String) (st : St) (opToks implToks : List String) :
@@ -485,16 +503,14 @@ def stepWith (judge : St → Hub → Op → ImplOut → String) (st : St) (opTok
     -- says bye there.  Whatever the interleaving, the session has ended: at rest the tables are those of
     -- "take-over, bye" (the join either never completed or was undone).
     match opToks with
-    | [_, s, _, _, c2] =>
-      stepPar judge st [["resume", c2, s], ["bye", c2]] implToks
+    | [_, s, room, rs, c2] => stepRace judge st ["join", s, room, rs, "ok"] s c2 implToks
     | _ => (st, "bad-op", "na")
   else
   if opToks.head? == some "vaddrace" then
     -- vaddrace sN room key user c2: the same for an internal session whose request to add a virtual session is
     -- waiting for the backend: the virtual session must not come into being after its internal client ended
     match opToks with
-    | [_, s, _, _, _, c2] =>
-      stepPar judge st [["resume", c2, s], ["bye", c2]] implToks
+    | [_, s, room, key, user, c2] => stepRace judge st ["vadd", s, room, key, user, "-", "1"] s c2 implToks
     | _ => (st, "bad-op", "na")
   else
   if opToks.head? == some "fed" then
